@@ -152,6 +152,11 @@ def run(chk):
         raise AnalysisBroken("diffCanonicalTransform<double> not found")
     dif = diffs[0]
     qs = db.fn(TSG + "::getQuadratureScale")
+    # the accumulated factor is the local that getQuadratureScale returns, whatever it is called
+    _rets = [q for r in qs.walk() if r.get("k") == "ReturnStmt" and r.get("c") for q in [strip(r["c"][0])] if q is not None and q.get("k") == "DeclRefExpr" and q.get("did") in qs.locals()]
+    if not _rets:
+        raise AnalysisBroken("getQuadratureScale does not return a local accumulator")
+    SCALE = _rets[0].get("var")
     dom = db.fn(TSG + "::getDomainInside")
     for f in (fwd, inv, dif, qs, dom):
         chk.saw(f)
@@ -197,7 +202,7 @@ def run(chk):
         F = per_family(chains["forward"])
         I = per_family(chains["inverse"])
         J = per_family(chains["jacobian"], ("jacobian_diag",))
-        Q = per_family(chains["quadrature"], ("scale",))
+        Q = per_family(chains["quadrature"], (SCALE,))
     except NotClosedForm as e:
         raise AnalysisBroken("transform bodies are no longer closed forms: %s" % e)
     pos = {A: sympy.Symbol("a", real=True), B: sympy.Symbol("b", positive=True)}
@@ -219,28 +224,28 @@ def run(chk):
         # quadrature scale
         qf = Q.get(fam)
         w = {"rule_gausslaguerre+rule_gausslaguerreodd": ALPHA, "rule_gausshermite+rule_gausshermiteodd": ALPHA}.get(fam, 0)
-        if qf is not None and "scale" in qf:
+        if qf is not None and SCALE in qf:
             law = df ** (1 + w)
-            ok = sympy.simplify(sympy.powsimp(sympy.expand_power_base(qf["scale"] / law, force=True), force=True)) == 1
+            ok = sympy.simplify(sympy.powsimp(sympy.expand_power_base(qf[SCALE] / law, force=True), force=True)) == 1
             if not ok:
                 # numeric-free structural fallback: compare logarithms with positive symbols
                 bb = sympy.Symbol("b", positive=True)
                 aa = sympy.Symbol("a", positive=True)
-                r = sympy.simplify(sympy.expand_log(sympy.log(qf["scale"].subs({B: bb + aa, A: aa})) - sympy.log(law.subs({B: bb + aa, A: aa})), force=True))
+                r = sympy.simplify(sympy.expand_log(sympy.log(qf[SCALE].subs({B: bb + aa, A: aa})) - sympy.log(law.subs({B: bb + aa, A: aa})), force=True))
                 ok = r == 0
-            chk.ob("C10-D2.algebra", "family " + fam, "quadrature scale == (d forward/dx)^(1+w)", ok, qs.where, "code: %s ; law: %s" % (qf["scale"], sympy.simplify(law)))
+            chk.ob("C10-D2.algebra", "family " + fam, "quadrature scale == (d forward/dx)^(1+w)", ok, qs.where, "code: %s ; law: %s" % (qf[SCALE], sympy.simplify(law)))
     # Jacobi sub-family of the quadrature scale uses the [-1,1] forward map with w = alpha + beta
     if jac:
         key = "+".join(sorted(jac[0]))
-        sc = Q[key]["scale"]
+        sc = Q[key][SCALE]
         df = sympy.diff(F["else"]["x"], X)
         # local alpha/beta of the function are symbols (their case split for Chebyshev is checked separately)
         al, be = sympy.Symbol("alpha_eff"), sympy.Symbol("beta_eff")
         body = [b for rs, b in chains["quadrature"] if rs != "else" and "+".join(sorted(rs)) == key][0]
-        env = {"alpha": al, "beta": be, "scale": sympy.Integer(1)}
+        env = {"alpha": al, "beta": be, SCALE: sympy.Integer(1)}
         expr = None
         for n in walk(body):
-            if n.get("k") == "CompoundAssignOperator" and n.get("op") == "*=" and txt(strip(n["c"][0])) == "scale":
+            if n.get("k") == "CompoundAssignOperator" and n.get("op") == "*=" and txt(strip(n["c"][0])) == SCALE:
                 expr = to_sympy(n["c"][1], make_resolver(env))
         bb, aa = sympy.Symbol("b", positive=True), sympy.Symbol("a", positive=True)
         ok = expr is not None and sympy.simplify(sympy.expand_log(sympy.log(expr.subs({B: bb + aa, A: aa})) - sympy.log((df ** (1 + al + be)).subs({B: bb + aa, A: aa})), force=True)) == 0
